@@ -83,3 +83,23 @@ Proof.
   rewrite E1, E2. f_equal. apply canonical_unique; try assumption; [congruence|].
   intros v. rewrite S1, S2. apply Eq.
 Qed.
+
+(* ---- size-limited operator: Some r exactly when the unrestricted result r has at most `limit` nodes ---- *)
+Theorem limit_exact A B fa fb fo op limit :
+  wf A -> wf B -> nvars A = nvars B -> flips_ok (nvars A) fa fb fo = true ->
+  total2 op -> consistent2 op ->
+  exists r, fused_binary_flip_op A B fa fb fo op = Ok r /\
+    fused_binary_flip_op_with_limit limit A B fa fb fo op = Ok (if size r <=? limit then Some r else None).
+Proof.
+  intros WA WB NV FL T C. pose proof FL as FL0. unfold flips_ok in FL.
+  apply andb_true_iff in FL. destruct FL as (FL & FO). apply andb_true_iff in FL. destruct FL as (FA & FB).
+  destruct (apply2_limit_spec A B fa fb fo op (bop_of op) WA WB NV (flip_ok_lt _ _ FA) (flip_ok_lt _ _ FB)
+              (total2_bop op T) (consistent2_bop op T C) limit) as (r & E & L).
+  destruct (fused_binary_flip_op_correct A B fa fb fo op WA WB NV FL0 T C) as (r' & E' & Cr & _).
+  exists r. unfold fused_binary_flip_op, fused_binary_flip_op_with_limit, guard2 in *. rewrite NV, N.eqb_refl in *. cbn [negb] in *.
+  rewrite <- NV, FA, FB, FO in *. cbn [andb negb] in *. rewrite E in *. rewrite L. cbn [of_option] in *.
+  split; [reflexivity|]. f_equal.
+  destruct (N.eqb_spec limit 0) as [->|Hl]; [|reflexivity].
+  inversion E'; subst r'. destruct Cr as (Wr & _). pose proof (size_pos r Wr).
+  destruct (N.leb_spec (size r) 0); [lia|reflexivity].
+Qed.
